@@ -75,7 +75,12 @@ class Machine(RuleBasedStateMachine):
             return None
         if kind == 'pattern':       # looks like an automatically generated idx of the near future
             self.features.add('auto_pattern')
-            return '%s_%d' % (model, len(existing) + data.draw(st.integers(1, 3), label='ahead'))
+            # build consecutive runs of auto-looking idx just ahead of the counter, so that a later automatic
+            # idx has to skip several taken names
+            k = len(existing) + 1
+            while '%s_%d' % (model, k) in existing:
+                k += 1
+            return '%s_%d' % (model, k + data.draw(st.sampled_from([0, 0, 0, 1]), label='ahead'))
         if kind == 'pattern_next':
             self.features.add('auto_pattern')
             other = [m for m, g in GROUPS.items() if g == group]
@@ -159,6 +164,19 @@ class Machine(RuleBasedStateMachine):
         if dang and idx is not None:
             self.dangling.append((model, 'bus', bus))
             self.features.add('dangling')
+
+    @precondition(lambda self: not self.done and len(self.rows['Bus']) > 0)
+    @rule(data=st.data(), model=st.sampled_from(['PQ', 'Shunt', 'PV', 'BusFreq']), width=st.integers(2, 4))
+    def add_pattern_block(self, data, model, width):
+        """A run of explicit idx that look like the next automatic ones, followed by an automatic add: the
+        generator has to skip the whole run."""
+        n = len(self.group_idx(GROUPS[model]))
+        self.features.add('auto_pattern')
+        for j in range(width):
+            bus, _ = self.ref(data, 'ACTopology', 'bus', allow_dangling=False)
+            self.do_add(model, '%s_%d' % (model, n + width + 1 + j), dict(bus=bus))
+        bus, _ = self.ref(data, 'ACTopology', 'bus', allow_dangling=False)
+        self.do_add(model, None, dict(bus=bus))
 
     @precondition(lambda self: not self.done and len(self.group_idx('StaticGen')) > 0)
     @rule(data=st.data(), model=st.sampled_from(['GENCLS', 'GENROU']), kind=idx_kinds)
